@@ -1227,7 +1227,11 @@ NodesById Graph::buildUniqueBendPoints(void) {
         // If the route does not contain at least three points, then it has no bends,
         // so we skip this Edge.
         size_t N = route.size();
-        if (N < 3) continue;
+        if (N < 3) {
+            // Make sure no bend nodes are left over from an earlier, bent route.
+            e->setBendNodes(Nodes());
+            continue;
+        }
         // Otherwise we need to prepare the vector of bend Nodes on this Edge's route.
         Nodes routeBends;
         // For display/testing purposes, we want the bend nodes we create to
